@@ -126,6 +126,12 @@ fn gen_links(r: &mut StdRng, files: &Files) -> Vec<(String, String, String)> {
     if r.gen_bool(0.15) {
         v.push(("zl".to_string(), "a/b".to_string(), "a/b".to_string()));
     }
+    if r.gen_bool(0.2) && !srcs.is_empty() {
+        // a link whose own name is *not* a source name, pointing at a source elsewhere: the scan
+        // goes by the entry's name, so this is no source of directory z
+        let t = &srcs[r.gen_range(0..srcs.len())];
+        v.push(("z/plain-link.md".to_string(), format!("../{t}"), t.clone()));
+    }
     v
 }
 
@@ -508,7 +514,7 @@ fn run(ctx: &mut Ctx) {
         let mut inputs = gen_inputs(&mut r, &files, &fake_root);
         let symlinks = gen_links(&mut r, &files);
         for (link, _, _) in &symlinks {
-            if r.gen_bool(0.3) {
+            if r.gen_bool(0.3) && !link.ends_with("plain-link.md") {
                 inputs.push(link.clone());
             }
         }
